@@ -210,7 +210,10 @@ def gen(rng, zero=False, focus=None, negative=False):
             return None                 # E0081
         ids = ([I('C')] if repr_c else []) + ([I(repr_int)] if repr_int else [])
         rng.shuffle(ids)
-        if ids:
+        if len(ids) == 2 and chance(rng, 0.35):
+            for i in ids:        # two separate `#[repr]` attributes, in either order
+                attrs.insert(rng.randrange(len(attrs) + 1), Attr('repr', repr_=('idents', [i])))
+        elif ids:
             attrs.insert(rng.randrange(len(attrs) + 1), Attr('repr', repr_=('idents', ids)))
     else:
         if groups_ok and chance(rng, 0.12):
